@@ -2,7 +2,8 @@ import HdVerif.Proofs.Ann
 /-! # C18  Bulk annotations return the coordinates and measurements stored
 
 Coordinates and measurement values are opaque cells `α` (`finite` = numpy's `isfinite`, `cast` = the
-documented cast of integer input to float32, identity for float input, `dbl` = the input is float64).
+constructor's cast of integer input to float32 (`astype(float32)`, not mentioned in the docstring, exact only
+below 2^24), identity for float input, `dbl` = the input is float64).
 Graphic data `gd : GData α` is a list of annotations, each a list of points (rows).
 
 `construct` is `AnnotationGroup.__init__` (validation loop, guards, shared-z / dimensionality / attribute
@@ -25,7 +26,7 @@ def ctOf (c : Nat) : Int := if c = 3 then 3 else 2
 
 /-- **Round trip of the graphic data** — every list of point lists, every graphic type, 2-D and 3-D,
 shared or varying z, single or double precision: valid input is accepted, and reading the *parsed*
-group (stored attributes only) returns every annotation unchanged (integers after the documented cast). -/
+group (stored attributes only) returns every annotation unchanged (integers after the constructor's float32 cast, which is exact below 2^24 and rounds silently above). -/
 theorem graphic_data_roundtrip (gt : String) (finite : α → Bool) (dbl : Bool) (cast : α → α) (gd : GData α) (c : Nat)
     (v : Valid gt finite cast gd c) :
     ∃ g, construct gt finite dbl cast gd = .ok g ∧
@@ -47,7 +48,7 @@ theorem graphic_data_fresh (gt : String) (finite : α → Bool) (dbl : Bool) (ca
     have : ¬ ((if c = 3 then (3 : Int) else 2) = ct) := fun h => hct (by simp [ctOf, h])
     simp [getGraphicData, this]
 
-/-- fresh and parsed agree up to the documented cast — in particular they are identical for float input -/
+/-- fresh and parsed agree up to the constructor's cast of integers — in particular they are identical for float input -/
 theorem fresh_eq_parsed (gt : String) (finite : α → Bool) (dbl : Bool) (gd : GData α) (c : Nat)
     (v : Valid gt finite id gd c) (g : Group α) (hg : construct gt finite dbl id gd = .ok g) :
     getGraphicData (parse g) (ctOf c) = getGraphicData g (ctOf c) := by
@@ -294,7 +295,7 @@ def dtypeSupported (kind : String) (itemsize : Int) : Prop :=
 instance (kind : String) (itemsize : Int) : Decidable (dtypeSupported kind itemsize) := by
   unfold dtypeSupported; exact inferInstance
 
-/-- the cast the constructor applies to every cell: single precision for integers (the documented cast) and
+/-- the cast the constructor applies to every cell: single precision for integers (the constructor's `astype(float32)`, lossy from 2^24) and
 for half precision (lossless widening), nothing for float32 / float64 -/
 def dtypeCast (kind : String) (itemsize : Int) (toF32 : α → α) : α → α :=
   if kind = "u" ∨ kind = "i" ∨ itemsize < 4 then toF32 else id
@@ -329,7 +330,7 @@ theorem constructDT_resolved (gt : String) (finite : α → Bool) (kind : String
   · simp [h1, h2, h3]
 
 
-/-- **Acceptance ⇒ the stored cells are the input cells after the documented cast.**  If the constructor
+/-- **Acceptance ⇒ the stored cells are the input cells after the cast the constructor applies.**  If the constructor
 accepts arrays of dtype (`kind`, `itemsize`) then the dtype is integer or float of at most double
 precision, the input is valid, DoublePointCoordinatesData is used exactly for 8-byte floats, and the parsed
 group returns every cell of every annotation — cast to single precision for integer / half-precision
